@@ -19,7 +19,11 @@ RULE = ("each run: generated well-formed input, then a constrained leaf (type al
 REAL = common.REAL_DECODER
 ASSUMPTIONS = ["allowed sets are the pinned snapshot's intervals (audited once against the pinned tree by membership probing)",
                "membership of error.constraint.valid_values is probed at interval end points +-1 and seeded values, never iterated"]
-TIERS = {"quick": {"runs": 50000, "budget": 75}, "thorough": {"runs": 900000, "budget": 780}}
+TIERS = {"quick": {"runs": 30000, "budget": 75}, "thorough": {"runs": 900000, "budget": 780}}
+
+
+def enumerate_all(tier, rng):
+    return tier == "thorough" and rng.random() < 0.5 or rng.random() < 0.01
 
 
 def make_case(i, rng, tier):
@@ -27,6 +31,23 @@ def make_case(i, rng, tier):
     o = model.decode(inp["root"], inp["data"], cc=inp["cc"], enc=inp["enc"])
     if not o.ok:
         raise HarnessError("generator produced a malformed input: %s %s" % (inp["label"], o.problem))
+    leaves = F.constrained_leaves(o)
+    if enumerate_all(tier, rng) and 0 < len(leaves) <= 60:
+        vs = []
+        for idx in leaves:
+            it = o.items[idx]
+            vals = F.outside_values(it[2], None, far=False)[:6] + F.outside_values(it[2], rng)[-2:]
+            for val in dict.fromkeys(vals):
+                f = F.fault_value(inp["data"], o, rng, idx=idx, value=val)
+                if f:
+                    vs.append((f[0], [f[1]]))
+            if idx not in F.field_classes(o):
+                for val in F.boundary_values(it[2])[:4]:
+                    nd = F.put(inp["data"], it, val)
+                    if nd is not None:
+                        vs.append((nd, [F._rec("boundary", o, it, idx, old=it[3], new=val)]))
+        if vs:
+            return common.with_variants(common.mk_case(rng, inp, inp["data"], []), vs[:400])
     data, recs = inp["data"], []
     r = rng.random()
     if r < 0.2:
@@ -59,7 +80,7 @@ def probe_values(tname, rng_seed):
     return sorted(v for v in vs if lo <= v <= hi)
 
 
-def check(case):
+def check_one(case):
     res = Result()
     w = common.run_world(case, res)
     t, data, o = common.main_ref(case, w)
@@ -120,6 +141,15 @@ def check(case):
     return res
 
 
+def check(case):
+    if "variants" in case:
+        return common.check_variants(case, check_one)
+    return check_one(case)
+
+
 def shrink(case):
+    if "variants" in case:
+        yield from common.shrink_variants(case)
+        return
     yield from common.shrink_faults(case, ("main",))
     yield from common.shrink_tasks(case, {"main"})
